@@ -292,7 +292,58 @@ pub fn execute_range(prop: &dyn Prop, cfg: &RunCfg, known: &[Known]) -> Summary 
     }
 }
 
-pub fn minimise(prop: &dyn Prop, case: &J, class: &str, mut budget: usize) -> (J, Violation, usize) {
+/// Watchdog for the sequential phases (regression inputs, minimisation): what to report if the
+/// execution that is running right now never returns.
+pub enum SeqJob {
+    /// replaying a stored trace
+    Regression { pid: String, file: String },
+    /// executing a shrink candidate: the best case so far still reproduces `v`
+    Minimise { pid: String, verif_dir: String, seed: u64, index: u64, best: J, v: Violation, original: J },
+}
+
+pub static SEQ_WATCH: Mutex<Option<(Instant, SeqJob)>> = Mutex::new(None);
+
+pub fn seq_watch_set(job: Option<SeqJob>) {
+    *SEQ_WATCH.lock().unwrap() = job.map(|j| (Instant::now(), j));
+}
+
+pub fn spawn_seq_watchdog() {
+    std::thread::spawn(|| loop {
+        std::thread::sleep(Duration::from_millis(500));
+        let g = SEQ_WATCH.lock().unwrap();
+        if let Some((t, job)) = g.as_ref() {
+            if t.elapsed() > Duration::from_secs(HANG_SECS) {
+                match job {
+                    SeqJob::Regression { pid, file } => {
+                        println!("VIOLATION property={} replay={}", pid, file);
+                        println!("  class={}:hang detail=replaying this regression input did not return within {} s", pid, HANG_SECS);
+                    }
+                    SeqJob::Minimise { pid, verif_dir, seed, index, best, v, original } => {
+                        // a shrink candidate hangs: report the violation with the smallest case found so far
+                        let path = write_replay(verif_dir, pid, *seed, *index, best, v, Some(original));
+                        println!("VIOLATION property={} replay={}", pid, path);
+                        println!("  class={} step={} run_index={} (minimisation stopped: a candidate did not return within {} s)", v.class, v.step, index, HANG_SECS);
+                        println!("  detail={}", v.detail);
+                    }
+                }
+                std::process::exit(1);
+            }
+        }
+    });
+}
+
+pub struct MinCtx<'a> {
+    pub pid: &'a str,
+    pub verif_dir: &'a str,
+    pub seed: u64,
+    pub index: u64,
+}
+
+pub fn minimise(prop: &dyn Prop, case: &J, class: &str, budget: usize) -> (J, Violation, usize) {
+    minimise_watched(prop, case, class, budget, None)
+}
+
+pub fn minimise_watched(prop: &dyn Prop, case: &J, class: &str, mut budget: usize, ctx: Option<&MinCtx>) -> (J, Violation, usize) {
     let mut cur = case.clone();
     let mut st = Stats::default();
     let mut curv = match prop.exec(&cur, &mut st) {
@@ -309,7 +360,22 @@ pub fn minimise(prop: &dyn Prop, case: &J, class: &str, mut budget: usize) -> (J
             budget -= 1;
             used += 1;
             let mut st = Stats::default();
-            if let Ok(RunOut { violation: Some(v), .. }) = prop.exec(&cand, &mut st) {
+            if let Some(c) = ctx {
+                seq_watch_set(Some(SeqJob::Minimise {
+                    pid: c.pid.to_string(),
+                    verif_dir: c.verif_dir.to_string(),
+                    seed: c.seed,
+                    index: c.index,
+                    best: cur.clone(),
+                    v: curv.clone(),
+                    original: case.clone(),
+                }));
+            }
+            let r = prop.exec(&cand, &mut st);
+            if ctx.is_some() {
+                seq_watch_set(None);
+            }
+            if let Ok(RunOut { violation: Some(v), .. }) = r {
                 if v.class == class {
                     cur = cand;
                     curv = v;
@@ -394,6 +460,7 @@ pub fn run_check(prop: &dyn Prop, cfg: &RunCfg) -> i32 {
     // first, so a defect that returns is reported with exactly the trace that exposed it
     let mut regressions = 0;
     let mut regression_known_hits: BTreeMap<String, u64> = BTreeMap::new();
+    spawn_seq_watchdog();
     let mut files: Vec<std::path::PathBuf> = Vec::new();
     for sub in ["findings", "corpus"] {
         if let Ok(rd) = std::fs::read_dir(format!("{}/{}", cfg.verif_dir, sub)) {
@@ -420,7 +487,10 @@ pub fn run_check(prop: &dyn Prop, cfg: &RunCfg) -> i32 {
             if let Some(case) = j.get("case") {
                 let mut st = Stats::default();
                 regressions += 1;
-                if let Ok(RunOut { violation: Some(v), .. }) = prop.exec(case, &mut st) {
+                seq_watch_set(Some(SeqJob::Regression { pid: pid.to_string(), file: f.display().to_string() }));
+                let r = prop.exec(case, &mut st);
+                seq_watch_set(None);
+                if let Ok(RunOut { violation: Some(v), .. }) = r {
                     if known.iter().any(|k| k.property == pid && k.signature == v.class) {
                         *regression_known_hits.entry(v.class.clone()).or_insert(0u64) += 1;
                     } else {
@@ -448,7 +518,8 @@ pub fn run_check(prop: &dyn Prop, cfg: &RunCfg) -> i32 {
     }
     if let Some((index, case, v)) = sum.violations.first() {
         viol_count = sum.violations.len();
-        let (min_case, min_v, used) = minimise(prop, case, &v.class, 2000);
+        let ctx = MinCtx { pid, verif_dir: &cfg.verif_dir, seed: cfg.seed, index: *index };
+        let (min_case, min_v, used) = minimise_watched(prop, case, &v.class, 2000, Some(&ctx));
         let path = write_replay(&cfg.verif_dir, pid, cfg.seed, *index, &min_case, &min_v, Some(case));
         // replaying the minimised file must reproduce the violation exactly
         let mut st = Stats::default();
